@@ -65,6 +65,9 @@ def run_property(pid, mod, tier, seed, verbose=False):
     if only:
         scns = [s for s in scns if only in s.name]
     ids = engine.register(scns)
+    # wall-clock safety net per scenario (a level that has started is always completed; hitting the net is
+    # reported as a cap): the quick tier is sized by state/depth caps, the net only matters on a loaded machine
+    engine._DEFAULT_BUDGET[0] = int(os.environ.get("VERIF_SCENARIO_SECONDS", "120" if tier == "quick" else "480"))
     if hasattr(mod, "prepare"):
         mod.prepare(ctx)                 # registers enumerator functions before the pool forks
     if hasattr(mod, "static_guard"):
